@@ -71,6 +71,10 @@ class Array(AbstractValueWithQuantityObject, Generic[ValuesType]):
 
     """
 
+    # Makes numpy defer to our reflected operators (i.e.: numpy.array([...]) * Array(...) must
+    # result in an Array, not in a numpy array without any unit).
+    __array_priority__ = 1000
+
     @overload
     def __init__(self, category: Union[str, Quantity]): ...
 
